@@ -731,6 +731,39 @@ fn run_priority_item(mask: u64, prefixes: &[&str], acc: &mut Acc) {
             }
             (PrioVerdict::Winner(w), Out::Ok(_)) => {
                 prio_check_winner(acc, &t, &defs, w, true, &case);
+                // A configuration call that is REFUSED changes nothing: `set_fallback_prefixes` on
+                // an instance that already has templates fails, and after one more (unrelated)
+                // registration - which rebuilds the component table - the winner is still the one
+                // of the prefixes the instance was built with. (Seeded change C05-13 stored the new
+                // list before the "templates were already added" check.)
+                for other in PRIO_PREFIX_LISTS.iter().filter(|l| **l != prefixes) {
+                    let mut t2 = t.clone();
+                    let refused = engine::guarded(|| t2.set_fallback_prefixes(other.iter().map(|s| s.to_string()).collect::<Vec<_>>()));
+                    let case2 = || {
+                        let mut j = case();
+                        j.as_object_mut().unwrap().insert("then".into(), json!({"refused_call": format!("set_fallback_prefixes({other:?})"), "followed_by": "add_raw_template(\"zz-later.html\", \"later\")"}));
+                        j
+                    };
+                    match refused {
+                        Ok(Err(_)) => {}
+                        Ok(Ok(())) => {
+                            // documented: "must be called before adding templates"
+                            acc.violation("priority-late-prefix-change-accepted", format!("set_fallback_prefixes({other:?}) on an instance holding templates returned Ok"), &case2);
+                            continue;
+                        }
+                        Err(p) => {
+                            acc.violation("panic:priority", format!("set_fallback_prefixes panicked: {p}"), &case2);
+                            continue;
+                        }
+                    }
+                    let later = engine::add_templates(&mut t2, &[("zz-later.html".to_string(), "later".to_string())]);
+                    if !later.is_ok() {
+                        acc.violation("priority-after-refused-prefix-change", format!("after the refused set_fallback_prefixes({other:?}) an unrelated add_raw_template failed: {}", later.show()), &case2);
+                    } else {
+                        prio_check_winner(acc, &t2, &defs, w, true, &case2);
+                    }
+                    acc.case(nontrivial, "winner:after-refused-prefix-change");
+                }
                 "winner:accepted".into()
             }
             (PrioVerdict::Winner(w), Out::Err(..)) => {
